@@ -836,6 +836,7 @@ ldb_recover_log_file(ldb_t *db, uint64_t log_number,
   ldb_slice_t record;
   ldb_batch_t batch;
   int compactions = 0;
+  uint64_t valid_end = 0;
   ldb_memtable_t *mem = NULL;
   ldb_reader_t reader;
 
@@ -872,6 +873,9 @@ ldb_recover_log_file(ldb_t *db, uint64_t log_number,
   /* Read all the records and add to a memtable. */
   while (ldb_reader_read_record(&reader, &record, &buf) && rc == LDB_OK) {
     ldb_seqnum_t last_seq;
+
+    /* Offset just past the last complete record. */
+    valid_end = reader.end_offset - reader.buffer.size;
 
     if (record.size < 12) {
       /* "log record too small" */
@@ -928,7 +932,11 @@ ldb_recover_log_file(ldb_t *db, uint64_t log_number,
     assert(db->log == NULL);
     assert(db->mem == NULL);
 
+    /* Appending is only safe if the file ends right after its last
+       complete record. After a torn tail (writer died mid-record) new
+       records would follow garbage and be dropped by the next recovery. */
     if (ldb_file_size(fname, &lfile_size) == LDB_OK &&
+        lfile_size == valid_end &&
         ldb_appendfile_create(fname, &db->logfile) == LDB_OK) {
       ldb_log(db->options.info_log, "Reusing old log %s", fname);
 
